@@ -124,6 +124,9 @@ pub fn c17(tier: &str, seed: u64) {
       4 => 0,
       _ => g.range(1, 12) as u32,
     };
+    // LARGE thresholds (hundreds of shares, share lists of 64 KiB and more): integer-width and
+    // input-size boundaries of the string interface
+    let t = if case_i == 6 || case_i == 13 || (!quick(tier) && case_i % 1500 == 21) { stat("oracle.C17.large_thresholds"); *g.pick(&[255u32, 256, 257, 300, 520]) } else { t };
     let m = { let n = *g.pick(&[0usize, 0, 1, 5, 31, 32, 33, 166, 300]); g.blob(n) };
     let epoch = gen_epoch(&mut g);
     if t == 0 {
